@@ -1,12 +1,84 @@
 (* C06 — glTF / GLB output is structurally loadable and carries exactly the scene data.
-   Statements only; proofs live in Formats/GltfProofs.v and Formats/GltfGlbProofs.v. *)
-From PF Require Import Base.Bytes Formats.Gltf Formats.GltfGlbProofs.
+   Statements only; proofs live in Formats/GltfProofs.v and Formats/GltfGlbProofs.v.
+   [run sc] is the writer state after AddScene, [to_summary] the document ToGLTF emits, [buf] the
+   binary payload.  [scene_ok] is what a modeling.Mesh guarantees structurally (K components per vector,
+   float32 / byte words, all attributes of one length, indices below it) — no bound on the number of
+   models, vertices, attributes, repeated pointers, materials, instances or lights. *)
+From PF Require Import Base.Bytes Formats.Gltf Formats.GltfProofs Formats.GltfGlbProofs.
 Open Scope list_scope.
 Open Scope N_scope.
 
+(* buffer views are consecutive from offset 0 (hence disjoint), lie inside the declared buffer length,
+   and their lengths add up to it; for well-formed scenes it is the actual payload length *)
+Theorem views_tile_buffer : forall sc,
+  let st := run sc in let s := to_summary st in
+  tiles 0 (s_views s) (b_written (st_b st)) /\ views_disjoint (s_views s) = true /\
+  forallb (view_ok [b_written (st_b st)]) (s_views s) = true /\
+  s_buffers s = (if 0 <? b_written (st_b st) then [b_written (st_b st)] else []) /\
+  (scene_ok sc -> len (buf st) = b_written (st_b st)).
+Proof. exact views_tile. Qed.
+Print Assumptions views_tile_buffer.
+
+(* accessor i refers to view i (a valid index), starts at its beginning and fills it exactly:
+   count * components * component size = view length *)
+Theorem accessor_fits_view : forall sc, scene_ok sc ->
+  let s := to_summary (run sc) in
+  forallb (acc_ok (s_views s)) (s_accs s) = true /\
+  forall i a, nth_error (s_accs s) i = Some a ->
+    exists v, a_view a = Some (N.of_nat i) /\ nth_error (s_views s) i = Some v /\ a_off a = 0 /\
+              a_count a * a_k a * code_size (a_comp a) = v_len v.
+Proof. exact accessors_fit. Qed.
+Print Assumptions accessor_fits_view.
+
+(* decoding accessor i from the payload returns exactly, in order, the elements the writer was handed for
+   it (the float32 words / bytes of an attribute, the indices, the instance transforms) *)
+Theorem payload_is_image : forall sc, scene_ok sc ->
+  let st := run sc in let s := to_summary st in
+  forall i a, nth_error (s_accs s) i = Some a ->
+    exists ck, nth_error (b_chunks (st_b st)) i = Some ck /\ a = acc_of (N.of_nat i) ck /\
+               decode_acc (s_views s) (buf st) a = Some (expand (ck_data ck)).
+Proof. exact payload_decodes. Qed.
+Print Assumptions payload_is_image.
+
+(* index accessors: UNSIGNED_SHORT iff the attribute length is at most 65535 (the code's threshold:
+   attributeSize > math.MaxUint16 selects UNSIGNED_INT) ... *)
+Theorem index_width_ok : forall idx n i,
+  a_comp (acc_of i (idx_chunk idx n)) = (if n <=? 65535 then 5123 else 5125).
+Proof. exact index_width_rule. Qed.
+Print Assumptions index_width_ok.
+(* ... and on a well-formed mesh (every index below the attribute length) the stored values are the
+   mesh's indices unchanged (no truncation by uint16()/uint32()), none is the reserved maximum of the
+   chosen type, and the chunk is well-formed *)
+Theorem index_values_ok : forall idx n, Forall (fun i => i < n) idx -> n < 4294967296 ->
+  ck_data (idx_chunk idx n) = plain (map (fun i => [i]) idx) /\
+  Forall (fun i => i + 1 < 256 ^ comp_size (index_comp n)) idx /\
+  chunk_ok (idx_chunk idx n).
+Proof. exact index_values_kept. Qed.
+Print Assumptions index_values_ok.
+
+(* declared min / max: index accessors declare none; a vector accessor declares, per component, a value
+   that is attained by a stored NaN-free element and bounds all of them ([fkey] embeds the float32 order,
+   -0 < +0, into Z); with no usable element the start values +-MaxFloat64 remain *)
+Theorem minmax_sound : forall sc i a, nth_error (s_accs (to_summary (run sc))) i = Some a ->
+  exists ck, nth_error (b_chunks (st_b (run sc))) i = Some ck /\
+    (is_idx_comp (ck_comp ck) = true /\ a_min a = [] /\ a_max a = [] \/
+     is_idx_comp (ck_comp ck) = false /\
+     (a_min a, a_max a) = minmax_of (ck_comp ck) (ck_k ck) (run_elems (ck_data ck))).
+Proof. exact minmax_declared. Qed.
+Print Assumptions minmax_sound.
+Theorem minmax_bounds : forall c k es j, (j < N.to_nat k)%nat ->
+  let u := col j (mm_elems c es) in
+  match u with
+  | [] => nth_error (fst (minmax_of c k es)) j = Some MHi /\ nth_error (snd (minmax_of c k es)) j = Some MLo
+  | _ => exists lo hi,
+      nth_error (fst (minmax_of c k es)) j = Some (MF lo) /\ nth_error (snd (minmax_of c k es)) j = Some (MF hi) /\
+      In lo u /\ In hi u /\ forall x, In x u -> (fkey lo <= fkey x <= fkey hi)%Z
+  end.
+Proof. exact minmax_of_sound. Qed.
+Print Assumptions minmax_bounds.
+
 (* GLB container: for every JSON text and every buffer, the header's length field is the actual file
-   length 12 + 8 + pad4 json [+ 8 + pad4 bin]; an independent reader that insists on declared = actual
-   lengths and 4-byte aligned chunks recovers the JSON (space padded) and the buffer (zero padded) *)
+   length 12 + 8 + pad4 json [+ 8 + pad4 bin]; both chunk lengths are multiples of 4, padding < 4 *)
 Theorem glb_lengths : forall json bin,
   len (glb_frame json bin) = glb_total (len json) (len bin) /\
   glb_total (len json) (len bin)
@@ -19,6 +91,8 @@ Proof.
 Qed.
 Print Assumptions glb_lengths.
 
+(* ... and an independent reader that insists on declared = actual lengths, aligned chunks and no
+   trailing bytes recovers the JSON (space padded) and the buffer (zero padded; no BIN chunk when empty) *)
 Theorem glb_declared_is_actual : forall json bin,
   glb_total (len json) (len bin) < 4294967296 ->
   glb_parse (glb_frame json bin) =
@@ -26,3 +100,25 @@ Theorem glb_declared_is_actual : forall json bin,
           if len bin =? 0 then None else Some (bin ++ repeat 0 (N.to_nat (pad4 (len bin))))).
 Proof. exact glb_parse_frame. Qed.
 Print Assumptions glb_declared_is_actual.
+
+(* component alignment is FALSE of the faithful model (and of the code: known finding
+   gltf:unaligned-view): a well-formed scene whose document has a FLOAT accessor at byte offset 42 *)
+Theorem alignment_refuted :
+  exists sc a v, scene_ok sc /\ In a (s_accs (to_summary (run sc))) /\
+    (exists vi, a_view a = Some vi /\ nth_error (s_views (to_summary (run sc))) (N.to_nat vi) = Some v) /\
+    (v_off v + a_off a) mod code_size (a_comp a) <> 0.
+Proof. exact alignment_refuted_witness. Qed.
+Print Assumptions alignment_refuted.
+
+(* non-vacuity: the two-triangle scene is well-formed, is not refused, and its document passes the whole
+   checker (everything except alignment) against the scene *)
+Example c06_example :
+  scene_ok two_triangles /\ scene_rejected two_triangles = false /\
+  gltf_validb two_triangles {| o_sum := to_summary (run two_triangles); o_payload := Some (buf (run two_triangles));
+                               o_bin_len := 84; o_glb := None |} = true /\
+  aligned_ok (s_views (to_summary (run two_triangles))) (s_accs (to_summary (run two_triangles))) = false.
+Proof.
+  split; [|vm_compute; repeat split; reflexivity].
+  unfold scene_ok, two_triangles. cbn [sc_models].
+  repeat constructor; cbn; try lia; try (vm_compute; reflexivity).
+Qed.
